@@ -104,7 +104,7 @@ def configs(case):
     return feats, rw, up
 
 
-def check_obs(ctx, env, inner, obs, space, where, padded_multi=False):
+def check_obs(ctx, env, inner, obs, space, where, padded_multi=False, check_membership=True):
     """obs vs declared space and vs the live graph / composite observer."""
     from job_shop_lib.reinforcement_learning import ObservationSpaceKey
     ctx.count("observations_checked")
@@ -115,7 +115,9 @@ def check_obs(ctx, env, inner, obs, space, where, padded_multi=False):
     except Exception as e:
         member = False
         w["contains_error"] = repr(e)[:200]
-    if not member:
+    if not member and not check_membership:
+        ctx.count("observations_without_padding_mirror_only")
+    elif not member:
         detail = {}
         for k, sub in space.spaces.items():
             if k not in obs:
@@ -126,6 +128,8 @@ def check_obs(ctx, env, inner, obs, space, where, padded_multi=False):
         extra = [k for k in obs if k not in space.spaces]
         ctx.violation("c18_observation_not_in_observation_space", dict(w, detail=detail, extra_keys=extra))
         return
+    if not check_membership:
+        pass
     rem = np.asarray(obs["removed_nodes"])
     n = len(g.removed_nodes)
     if [bool(x) for x in rem[:n]] != [bool(x) for x in g.removed_nodes] or not np.all(rem[n:] == 1):
@@ -134,7 +138,9 @@ def check_obs(ctx, env, inner, obs, space, where, padded_multi=False):
     edges = list(g.graph.edges())
     ei = np.asarray(obs["edge_index"])
     E = len(edges)
-    if ei.ndim != 2 or ei.shape[0] != 2 or ei.shape[1] < E:
+    if E == 0 and ei.size == 0 and not check_membership:
+        pass  # without padding nothing is declared about the shape of an empty edge list
+    elif ei.ndim != 2 or ei.shape[0] != 2 or ei.shape[1] < E:
         ctx.violation("c18_edge_index_shape", dict(w, shape=list(ei.shape), edges=E))
     else:
         got = list(zip(ei[0, :E].tolist(), ei[1, :E].tolist()))
@@ -178,8 +184,7 @@ def check_actions(ctx, env, inner, where):
 def episode(ctx, env, inner_of, rng, where, padding, first_obs):
     inner = inner_of()
     space = env.observation_space
-    if padding:
-        check_obs(ctx, env, inner, first_obs, space, where + " reset")
+    check_obs(ctx, env, inner, first_obs, space, where + " reset", check_membership=padding)
     done = False
     steps = 0
     N = inner.instance.num_operations
@@ -191,8 +196,7 @@ def episode(ctx, env, inner_of, rng, where, padding, first_obs):
         act = (op.job_id, m if len(op.machines) > 1 or rng.random() < 0.6 else -1)
         obs, reward, done, trunc, info = env.step(act)
         steps += 1
-        if padding:
-            check_obs(ctx, env, inner, obs, space, f"{where} step {steps}")
+        check_obs(ctx, env, inner, obs, space, f"{where} step {steps}", check_membership=padding)
         complete = inner.dispatcher.schedule.is_complete()
         if done != complete or done != (steps == N) or trunc is not False:
             ctx.violation("c18_done_or_truncated", {"where": where, "done": done, "complete": complete,
